@@ -224,7 +224,7 @@ def run(ctx) -> None:
     r2.check(on_ok, "k-point ik goes to the slot of its own index, only if it lies on the grid", tg, app_stmt,
              "a k-point is appended without the on-grid test |rint(k·grid)/grid − k| < tol of that same k-point: off-grid points are averaged into grid slots")
     iv_, seqs = index_domain(lp) if lp is not None else (None, [])
-    r2.check(lp is not None and iv_ == ikv and "self.kpoints" in seqs and all(x == "self.kpoints" or "self.kpoints" in S.rnorm(ast.parse(x, mode="eval").body, cfg.node(lp)) for x in seqs),
+    r2.check(lp is not None and iv_ == ikv and bool(seqs) and all(x == "self.kpoints" or "self.kpoints" in S.rnorm(ast.parse(x, mode="eval").body, cfg.node(lp)) for x in seqs),
              "every stored k-point is considered", tg, lp or tg.node, "not every stored k-point is mapped to the grid")
     res = [n for n in ast.walk(tg.node) if isinstance(n, ast.DictComp) and any(c.args and norm(c.args[0]) == kmap for c in method_calls(n, "to_grid"))]
     okres = False
